@@ -190,8 +190,20 @@ def run(ctx):
 
     for fname, c in load_corpus("C05"):
         one(c["doc"], "corpus:" + fname)
+    def revalued(doc):
+        """the same file with other values for its Define statements: read right after the original in the same process"""
+        out = []
+        for st in doc:
+            if st[0] == "define":
+                st = ["define", st[1], rng.choice([x for x in gen.NUM_FORMS if x != st[2]])]
+            out.append(st)
+        return out
+
     for i in range(n_docs):
         doc, _, _ = gen_c05(rng)
         one(doc, "generated")
+        if i % 3 == 0 and any(st[0] == "define" for st in doc):
+            one(revalued(doc), "generated:revalued")
+            res.count("revalued")
     batch.run()
     return res.done()
